@@ -520,3 +520,9 @@ def run(ctx, R):
     from psa.rules import c01
     c01.r12(ctx, R, 'R8.4')
     r85(ctx, R)
+    from psa import sqlshape
+    n = sqlshape.shape_rule(ctx, R, 'R8.6', [
+        RPM + ':_delete_inventory_from_provider',
+        RPM + ':_has_child_providers',
+        'placement.objects.consumer:delete_consumers_if_no_allocations'])
+    R.count('R8.6', n, 3)
